@@ -13,6 +13,12 @@ PERTURB_KINDS = ('chdir', 'alloc', 'gc', 'relayout', 'clock')
 FAULT_KINDS = ('open-fail', 'read-fail', 'write-torn', 'close-fail',
                'seek-fail', 'crash')
 
+# families that contain coupled systems, ligands with coupled groups, ions:
+# the places where order- and state-dependent code paths actually run
+HOT_FAMILIES = ('hpx_asp25', 'ftj_glu', 'ftj_sys3', 'dfr_mtxa', 'dfr_mtxb', 'dfr_mtxs',
+                'dfr_s00', 'dfr_s05', 'hpx_asp25s', 'sgb_nti', 'ftj_zn', 'hpx_kni')
+BIG_OK = ('ftj_sys3',)
+
 INVALID_INPUTS = [
     {'id': 'invalid.empty', 'family': 'invalid_empty', 'stem': 'empty',
      'text': '', 'natoms': 0, 'tags': ['invalid']},
@@ -212,8 +218,8 @@ def gen_history(seed, wl, cfg=None):
     inputs = wl['inputs']
     by_id = {i['id']: i for i in inputs}
     params = {p['id']: p['text'] for p in wl['params']}
-    max_atoms = cfg.get('max_atoms', 250)
-    pool = [i for i in inputs if i['natoms'] <= max_atoms]
+    max_atoms = cfg.get('max_atoms', 300)
+    pool = [i for i in inputs if i['natoms'] <= max_atoms or i['family'] in BIG_OK]
     small = [i for i in pool if i['natoms'] <= 120]
     fams = {}
     for i in pool:
@@ -224,6 +230,7 @@ def gen_history(seed, wl, cfg=None):
     mode = {'addr': 'sim' if arm == 'sim' else 'native',
             'layout': gen_layout(rng),
             'rollover': rng.random() < 0.25,
+            'clock_start': 730000 + rng.randrange(15000),
             'filelayer': True, 'clock': True, 'probe': True}
     if arm == 'bare':
         mode.update({'addr': 'native', 'filelayer': False, 'clock': False,
@@ -235,6 +242,9 @@ def gen_history(seed, wl, cfg=None):
     en_faults = _subset(rng, FAULT_KINDS, 1) if faults_on else set()
     nsteps = rng.randint(cfg.get('min_steps', 4), cfg.get('max_steps', 14))
     focus = rng.sample(sorted(fams), min(len(fams), rng.randint(1, 3)))
+    hot = [f for f in HOT_FAMILIES if f in fams]
+    if hot and rng.random() < 0.35:
+        focus[0] = rng.choice(hot)
     # inputs with process-lifetime side effects / order-sensitive modes first
     history = []
     used = {}
@@ -289,3 +299,49 @@ def gen_history(seed, wl, cfg=None):
             used_params[pid] = params[pid]
     return {'seed': seed, 'mode': mode, 'inputs': used, 'params': used_params,
             'steps': steps, 'arm': arm, 'faults_on': bool(en_faults)}
+
+
+def gen_sweep(seed, wl, cfg=None):
+    """Crash-sweep history: one subject call is crashed at every function it
+    executes (rank by rank, a chunk of ranks per history), each crash followed
+    by an un-faulted probe call that must match its reference.  Targets state
+    that is set and restored without try/finally."""
+    cfg = cfg or {}
+    rng = random.Random(seed)
+    inputs = wl['inputs']
+    params = {p['id']: p['text'] for p in wl['params']}
+    pool = [i for i in inputs if i['natoms'] <= cfg.get('sweep_max_atoms', 200)]
+    fams = {}
+    for i in pool:
+        fams.setdefault(i['family'], []).append(i)
+    hot = [f for f in HOT_FAMILIES if f in fams]
+    fam = rng.choice(hot) if hot and rng.random() < 0.75 else rng.choice(sorted(fams))
+    subject = rng.choice(fams[fam])
+    en_opts = set(k for k in OPTION_KINDS if rng.random() < 0.4)
+    opts, param, optsig = gen_options(rng, en_opts, subject, params)
+    if ['-d'] not in opts and rng.random() < 0.6:
+        opts = opts + [['-d']]
+        optsig += '+display'
+    mode = {'addr': 'sim', 'layout': gen_layout(rng), 'rollover': False,
+            'clock_start': 730000 + rng.randrange(15000),
+            'filelayer': True, 'clock': True, 'probe': True}
+    chunk = cfg.get('sweep_chunk', 16)
+    first = rng.randrange(16) * chunk
+    probe_opts = [[], [['-d']], opts]
+    steps = []
+    used = {subject['id']: {'text': subject['text'], 'stem': subject['stem']}}
+    for r in range(first, first + chunk):
+        kind = rng.choice(['single_path', 'single_stream', 'pipeline', 'cli'])
+        call = gen_call(rng, {kind}, subject, opts, param, [subject], False)
+        call['inputs'] = [subject['id']]
+        steps.append({'perturb': [], 'call': call, 'optsig': optsig, 'family': fam,
+                      'fault': {'kind': 'crash', 'rank': r, 'u_ord': rng.random()}})
+        po = rng.choice(probe_opts)
+        probe = rng.choice(fams[fam]) if rng.random() < 0.3 else subject
+        used[probe['id']] = {'text': probe['text'], 'stem': probe['stem']}
+        pc = gen_call(rng, {'single_stream', 'single_path'}, probe, po,
+                      param if po is opts else None, [probe], False)
+        steps.append({'perturb': [], 'call': pc, 'optsig': 'probe', 'family': fam})
+    used_params = {param: params[param]} if param else {}
+    return {'seed': seed, 'mode': mode, 'inputs': used, 'params': used_params,
+            'steps': steps, 'arm': 'sweep', 'faults_on': True}
